@@ -683,6 +683,39 @@ impl Accu {
     }
 }
 
+static DEADLINE: std::sync::OnceLock<std::time::Instant> = std::sync::OnceLock::new();
+static CAPPED: std::sync::atomic::AtomicBool = std::sync::atomic::AtomicBool::new(false);
+
+/// Wall-clock cap of the whole check (default: 50 s quick, 540 s thorough; VERIF_WALL_CAP_S
+/// overrides).  Hitting it is reported through `rep.not_exhaustive`.
+pub fn set_deadline(thorough: bool) {
+    let secs = std::env::var("VERIF_WALL_CAP_S").ok().and_then(|s| s.parse().ok()).unwrap_or(if thorough { 540u64 } else { 50 });
+    let _ = DEADLINE.set(std::time::Instant::now() + std::time::Duration::from_secs(secs));
+}
+pub fn past_deadline() -> bool {
+    match DEADLINE.get() {
+        Some(d) if std::time::Instant::now() > *d => {
+            CAPPED.store(true, Ordering::Relaxed);
+            true
+        }
+        _ => false,
+    }
+}
+pub fn report_cap(rep: &mut Report) {
+    if CAPPED.load(Ordering::Relaxed) {
+        rep.not_exhaustive("wall-clock cap reached: some histories of the deepest level were not visited (see counters of the last parts)");
+    }
+}
+
+/// CPU seconds (user + system) used by this process so far.
+pub fn cpu_s() -> f64 {
+    let Ok(s) = std::fs::read_to_string("/proc/self/stat") else { return 0.0 };
+    let Some(rest) = s.rsplit(')').next() else { return 0.0 };
+    let f: Vec<&str> = rest.split_whitespace().collect();
+    let t = |i: usize| f.get(i).and_then(|x| x.parse::<f64>().ok()).unwrap_or(0.0);
+    (t(11) + t(12)) / 100.0
+}
+
 /// Run `work(item, &mut accu)` for every item on `threads` workers; accumulators are merged in
 /// worker order (all merged quantities are order-independent: sums, sets, minima).
 pub fn par_run<T: Sync>(threads: usize, items: &[T], work: impl Fn(&T, &mut Accu) + Sync) -> Accu {
@@ -696,6 +729,10 @@ pub fn par_run<T: Sync>(threads: usize, items: &[T], work: impl Fn(&T, &mut Accu
                     let i = next.fetch_add(1, Ordering::Relaxed);
                     if i >= items.len() {
                         break;
+                    }
+                    if past_deadline() {
+                        acc.count("work_items_skipped_by_wall_cap", 1);
+                        continue;
                     }
                     work(&items[i], &mut acc);
                 }
